@@ -144,7 +144,7 @@ def directed_invocations(profile: str) -> T.List[dict]:
     """Invocations that make sure each quick run reaches every monitor / mutant-relevant pattern."""
     b = {'j': 3, 'repeat': 1, 'maxfail': 0, 'slice': None, 'suites': [], 'no_suites': [], 'tmult': None, 'group': None}
     if profile == 'classify':
-        return [dict(b, j=8), dict(b, j=1)]
+        return [dict(b, j=8), dict(b, j=1), dict(b, j=3, tmult=2)]
     if profile == 'allgood':
         return [dict(b, j=2), dict(b, j=3, tmult=0)]
     if profile == 'onebad':
@@ -278,7 +278,9 @@ def main() -> int:
                        ('monitor:exactly_once', 50), ('monitor:pids_gone', 50), ('monitor:slice_partition', 1),
                        ('monitor:harness_run', 50), ('monitor:harness_result', 50), ('monitor:tally_crosscheck', 10),
                        ('monitor:kill_reported', 1), ('cov:result_TIMEOUT', 1), ('cov:job_bound_saturated', 1),
-                       ('cov:all_good_run', 1)):
+                       ('cov:all_good_run', 1), ('cov:timeout_kw_negative', 5), ('cov:timeout_kw_zero', 5),
+                       ('cov:timeout_kw_negative_with_multiplier', 1), ('cov:nolimit_test_non_OK_classification', 1),
+                       ('cov:classified_tests_in_suites', 20), ('cov:suite_selection', 1)):
         chk.require(m, minimum)
     chk.require('runs_conclusive', int(0.6 * cfg['projects'] * cfg['per_project']))
     if chk.tier == 'thorough':
